@@ -565,3 +565,85 @@ pub fn decisions_so_far() -> (Vec<u8>, u64) {
         Err(_) => (Vec::new(), 0),
     }
 }
+
+// ------------------------------------------------------------------ fine-grained windows
+//
+// Hook points are coarse: two plain `Arc` operations in one `drop`, or two
+// instructions of generated code, have no scheduling point between them. For one
+// chosen operation per run the simulated thread is therefore single-stepped with the
+// x86 trap flag: after exactly `k` instructions of code under test (allocator mode
+// RUN; harness code is stepped through but neither counted nor preempted) the
+// SIGTRAP handler turns the trap flag off and enters the scheduler, which may park
+// the thread right there and run the others. `k` is part of the run description,
+// so the preemption lands on the same instruction in a replay.
+
+use crate::alloc::FINE_ON;
+thread_local! {
+    static FINE_LEFT: Cell<u64> = const { Cell::new(0) };
+}
+pub static FINE_FIRED: AtomicU64 = AtomicU64::new(0);
+pub static FINE_STEPS: AtomicU64 = AtomicU64::new(0);
+
+#[cfg(target_arch = "x86_64")]
+extern "C" fn trap_handler(_sig: libc::c_int, _info: *mut libc::siginfo_t, uctx: *mut libc::c_void) {
+    const TF: i64 = 0x100;
+    // SAFETY: uctx is the ucontext of the interrupted thread
+    let uc = unsafe { &mut *(uctx as *mut libc::ucontext_t) };
+    let on = FINE_ON.try_with(|c| c.get()).unwrap_or(false);
+    if !on {
+        uc.uc_mcontext.gregs[libc::REG_EFL as usize] &= !TF;
+        return;
+    }
+    if alloc::mode() != alloc::MODE_RUN {
+        // harness (or compile) code: not stepped, not counted, never preempted; stepping
+        // resumes when the thread switches back to RUN mode (alloc::set_mode)
+        uc.uc_mcontext.gregs[libc::REG_EFL as usize] &= !TF;
+        return;
+    }
+    FINE_STEPS.fetch_add(1, Relaxed);
+    let left = FINE_LEFT.with(|c| {
+        let v = c.get().saturating_sub(1);
+        c.set(v);
+        v
+    });
+    if left == 0 {
+        FINE_ON.with(|c| c.set(false));
+        uc.uc_mcontext.gregs[libc::REG_EFL as usize] &= !TF;
+        FINE_FIRED.fetch_add(1, Relaxed);
+        point("fine-preempt");
+    }
+}
+
+pub fn install_trap_handler() {
+    #[cfg(target_arch = "x86_64")]
+    // SAFETY: installing a signal handler (runs on the interrupted thread's own stack)
+    unsafe {
+        let mut sa: libc::sigaction = std::mem::zeroed();
+        sa.sa_sigaction = trap_handler as *const () as usize;
+        sa.sa_flags = libc::SA_SIGINFO | libc::SA_NODEFER;
+        libc::sigemptyset(&mut sa.sa_mask);
+        libc::sigaction(libc::SIGTRAP, &sa, std::ptr::null_mut());
+    }
+}
+
+/// Run `f` with a preemption after exactly `k` instructions of code under test.
+pub fn fine_window<R>(k: u64, f: impl FnOnce() -> R) -> R {
+    if k == 0 || !in_sim() || !cfg!(target_arch = "x86_64") {
+        return f();
+    }
+    FINE_LEFT.with(|c| c.set(k));
+    FINE_ON.with(|c| c.set(true));
+    #[cfg(target_arch = "x86_64")]
+    // SAFETY: sets the trap flag of this thread
+    unsafe {
+        core::arch::asm!("pushfq", "or qword ptr [rsp], 0x100", "popfq");
+    }
+    let r = f();
+    #[cfg(target_arch = "x86_64")]
+    // SAFETY: clears the trap flag of this thread
+    unsafe {
+        core::arch::asm!("pushfq", "and qword ptr [rsp], -257", "popfq");
+    }
+    FINE_ON.with(|c| c.set(false));
+    r
+}
